@@ -43,6 +43,12 @@ func (state *singleRateLimitState) TryToIncrement(
 ) CurrentLimitState {
 	state.mutex.Lock()
 	defer state.mutex.Unlock()
+	if state.windowData.WindowSize != 0 && state.windowData.WindowSize != windowData.WindowSize {
+		// the window size was changed (apply_policies): the stored window end belongs to the old
+		// grid, start counting afresh on the new one
+		state.counter = 0
+		state.windowEndTime = epochTime
+	}
 	state.windowData = windowData
 	state.ensureWindowIsUpdated()
 
